@@ -24,6 +24,60 @@ def candidate_source(fm, L):
     it = fm.norm(L.iter)
     if isinstance(it, Op) and it.op == "enumerate":
         it = it.args[0]
+    if isinstance(it, Ite):
+        # "filter only when an extension was given, then sort in place": each alternative is a list sorted in place - one a
+        # filtered pass over the file names, the other the file names themselves
+        alts0 = []
+
+        def lv0(t, cs):
+            t = fm.norm(t)
+            if isinstance(t, Ite):
+                lv0(t.a, cs + [t.c]), lv0(t.b, cs + [not_(t.c)])
+            else:
+                alts0.append((t, and_(*cs)))
+        lv0(it, [])
+        passes0, raw0, kws0 = [], [], []
+        for t, c in alts0:
+            its0 = list_items(I, t) if isinstance(t, Ref) else None
+            bad0 = (None, "it iterates %r, which is not one sorted list" % (it,))
+            if not its0:
+                return bad0
+            first = its0[0]
+            if len(its0) == 2 and its0[1][0] == "v" and isinstance(its0[1][1], Op) and its0[1][1].op == "listmut:sort" and \
+                    (fm.norm(its0[1][2]) == TRUE or implies(c, fm.norm(its0[1][2]))[0]):
+                # filled, then sorted in place
+                kws0.append({kv.args[0].v: fm.norm(kv.args[1]) for kv in its0[1][1].args if isinstance(kv, Op) and kv.op == "kv"})
+                if first[0] == "rep":
+                    passes0.append((first, c))
+                elif first[0] == "v" and isinstance(first[1], Op) and first[1].op == "splat" and fm.norm(first[2]) == TRUE:
+                    raw0.append((fm.norm(first[1].args[0]), c))
+                else:
+                    return bad0
+            elif len(its0) == 1 and first[0] == "v" and fm.norm(first[2]) == TRUE and isinstance(fm.norm(first[1]), Op) and \
+                    fm.norm(first[1]).op == "splat" and isinstance(fm.norm(first[1]).args[0], Op) and fm.norm(first[1]).args[0].op == "sorted":
+                # the canonical form of "a list sorted in place": splat(sorted(source))
+                srt0 = fm.norm(first[1]).args[0]
+                kws0.append({kv.args[0].v: fm.norm(kv.args[1]) for kv in srt0.args[1:]})
+                src0 = fm.norm(srt0.args[0])
+                sit0 = list_items(I, src0) if isinstance(src0, Ref) else None
+                if sit0 and len(sit0) == 1 and sit0[0][0] == "rep":
+                    passes0.append((sit0[0], c))
+                elif sit0 is None:
+                    raw0.append((src0, c))
+                else:
+                    return bad0
+            else:
+                return bad0
+        if len(passes0) != 1 or any(k != kws0[0] for k in kws0):
+            return None, "the alternatives of the candidate list are not one filtered pass / the plain file list sorted the same way"
+        (_, Lf, term, g), c0 = passes0[0]
+        files0 = fm.norm(Lf.iter)
+        if any(t != files0 for t, c in raw0):
+            return None, "what is sorted is assembled from several different sources"
+        keep = and_(c0, fm.norm(g))
+        for t, c in raw0:
+            keep = or_(keep, c)
+        return dict(kw=kws0[0], Lf=Lf, elem=fm.norm(term), guard=keep), ""
     its = list_items(I, it) if isinstance(it, Ref) else None
     if its and len(its) == 2 and its[0][0] == "rep" and its[1][0] == "v" and isinstance(its[1][1], Op) and its[1][1].op == "listmut:sort" \
             and fm.norm(its[1][2]) == TRUE:
